@@ -29,7 +29,8 @@ class World(object):
         self.att = 0
         self.problems = []
         try:
-            self.profile = e2ekit.make_profile("49157702%05d" % World.N)
+            # every second world: a profile that is not named after the phone number (what is stored is stored under the PROFILE's name)
+            self.profile = e2ekit.make_profile("49157702%05d" % World.N, name=("acct-%d" % World.N) if World.N % 2 else None)
             self.server_key = None
             self.edge = os.urandom(12) if edge else None
             if edge:
